@@ -2,6 +2,7 @@ package main
 
 import (
 	"fmt"
+	"math/big"
 	"sort"
 	"sync"
 	"sync/atomic"
@@ -11,6 +12,7 @@ import (
 
 // C07: the sequencer is a linearizable 16-bit counter with exact rollover count.
 // opcode 701: kind start [ops] [observed]   (op 0 = NextSequenceNumber, 1 = RollOverCount)
+// opcode 702: draw [ops]    NewRandomSequencer with the generator stubbed through the verif hook
 // The generator runs N goroutines against one sequencer, records every call with tickets taken
 // from a global atomic counter before and after it, reconstructs the only possible linearization
 // and emits it together with the results the goroutines observed.  Running the case executes the
@@ -148,6 +150,22 @@ func linearize(all []call, first uint16) (ordered []call, why string) {
 	return ordered, ""
 }
 
+// stubRand is the generator installed through the verif hook: every method returns the draw d,
+// clamped to the method's range.
+type stubRand struct{ d *big.Int }
+
+func (g stubRand) Intn(n int) int {
+	if g.d.Cmp(big.NewInt(int64(n))) >= 0 {
+		return n - 1
+	}
+	return int(g.d.Int64())
+}
+func (g stubRand) Uint32() uint32 { return uint32(new(big.Int).And(g.d, big.NewInt(1<<32-1)).Uint64()) }
+func (g stubRand) Uint64() uint64 { return g.d.Uint64() }
+func (g stubRand) GenerateString(n int, runes string) string {
+	return ""
+}
+
 func minInt(a, b int) int {
 	if a < b {
 		return a
@@ -171,6 +189,35 @@ func init() {
 		Quick:    1100,
 		Thorough: 66000,
 		Gen: func(r *RNG, tier string, n int, emit func(op int, toks ...Tok)) {
+			// sequential histories around the wrap with RollOverCount after every call (no schedule
+			// needed to see a rollover counted one call early or late), and the boundary draws of
+			// the random generator through the verif hook
+			for _, start := range []int64{0, 1, 2, 65535, 65534, 65533, 32767, 32768} {
+				ops := TList{TI(1)}
+				for k := 0; k < 8; k++ {
+					ops = append(ops, TI(0), TI(1))
+				}
+				emit(701, TI(0), TI(start), ops)
+			}
+			{
+				c := r.Fork(7777)
+				start := int64(65536 - 20 + c.Intn(15))
+				ops := TList{}
+				for k := 0; k < 2*65536+40; k++ {
+					ops = append(ops, TI(0))
+					if k%65536 < 40 || c.Intn(500) == 0 {
+						ops = append(ops, TI(1))
+					}
+				}
+				emit(701, TI(0), TI(start), ops)
+			}
+			for _, d := range []int64{0, 1, 2, 32765, 32766, 32767, 32768, 65535, 65536, 1<<31 - 1, 1 << 31, 1<<32 - 1, 1<<62 + 12345} {
+				emit(702, TI(d), TList{TI(1), TI(0), TI(1), TI(0), TI(0), TI(1)})
+			}
+			for k := 0; k < 40; k++ {
+				c := r.Fork(uint64(9000 + k))
+				emit(702, TI(int64(c.Intn(40000))), TList{TI(0), TI(1), TI(0)})
+			}
 			for i := 0; i < n; i++ {
 				c := r.Fork(uint64(i))
 				gs := c.Pick(2, 4, 8, 16)
@@ -214,10 +261,24 @@ func init() {
 		},
 		Run: func(op int, toks []Tok) Outcome {
 			var o Outcome
-			kind, start := int(tokInt(toks[0])), tokInt(toks[1])
-			ops := tokList(toks[2])
+			var kind int
+			var start int64
+			var ops []Tok
+			if op == 701 {
+				kind, start = int(tokInt(toks[0])), tokInt(toks[1])
+				ops = tokList(toks[2])
+			}
 			var s rtp.Sequencer
-			if kind == 0 {
+			if op == 702 {
+				// kind is the draw d, start is unused: NewRandomSequencer with a generator whose Intn(n)
+				// returns min(d, n-1) and whose Uint32/Uint64 return d truncated to their width
+				d := toks[0].(TInt).V
+				restore := rtp.VerifSetRand(stubRand{d})
+				s = rtp.NewRandomSequencer()
+				restore()
+				ops = tokList(toks[1])
+				toks = toks[:2]
+			} else if kind == 0 {
 				s = rtp.NewFixedSequencer(uint16(start))
 			} else {
 				// a random sequencer cannot be re-created; its sequential semantics from the observed
@@ -229,15 +290,43 @@ func init() {
 			}
 			res := VList{}
 			wraps := 0
-			for _, t := range ops {
+			// the property's own statement on a sequential history: successive values, first value,
+			// RollOverCount = number of zeros handed out, roc*65536+value strictly increasing
+			nexts, zeros := 0, uint64(0)
+			var firstV uint16
+			lastExt := int64(-1)
+			for i, t := range ops {
 				if tokInt(t) == 0 {
 					v := s.NextSequenceNumber()
 					if v == 0 {
 						wraps++
+						zeros++
 					}
+					if nexts == 0 {
+						firstV = v
+						if op == 701 && kind == 0 && v != uint16(start) && o.Fail == "" {
+							o.Fail = fmt.Sprintf("fixed sequencer started at %d: first value %d", start, v)
+						}
+						if op == 702 && v >= 1<<15 && o.Fail == "" {
+							o.Fail = fmt.Sprintf("random sequencer: first value %d is not below 2^15", v)
+						}
+					} else if v != firstV+uint16(nexts) && o.Fail == "" {
+						o.Fail = fmt.Sprintf("call %d: value %d, expected %d (gap or duplicate)", i, v, firstV+uint16(nexts))
+					}
+					nexts++
+					roc := s.RollOverCount()
+					ext := int64(roc)*65536 + int64(v)
+					if ext <= lastExt && o.Fail == "" {
+						o.Fail = fmt.Sprintf("call %d: RollOverCount*65536+value = %d does not increase (previous %d)", i, ext, lastExt)
+					}
+					lastExt = ext
 					res = append(res, I(int64(v)))
 				} else {
-					res = append(res, U(s.RollOverCount()))
+					roc := s.RollOverCount()
+					if roc != zeros && o.Fail == "" {
+						o.Fail = fmt.Sprintf("call %d: RollOverCount %d, but 0 has been handed out %d times", i, roc, zeros)
+					}
+					res = append(res, U(roc))
 				}
 			}
 			o.Impl = res
